@@ -41,6 +41,18 @@ func TestVerifC04Api(t *testing.T) {
 		{"partial-overlap", [][2]string{{"A", "NICK a"}, {"A", "USER a 0 * :A"}, {"B", "NICK b"}, {"B", "USER b 0 * :B"}, {"B", "JOIN #b"}, {"A", "JOIN #a,#b"}, {"A", "PRIVMSG #a :only a"}, {"A", "PRIVMSG #b :both"}, {"A", "PART #a,#b :bye"}, {"B", "PRIVMSG a :pm"}}},
 		{"errors-and-away", [][2]string{{"A", "NICK a"}, {"B", "NICK a"}, {"A", "USER a 0 * :A"}, {"B", "NICK b"}, {"B", "USER b 0 * :B"}, {"A", "AWAY :gone"}, {"B", "PRIVMSG a :hi"}, {"A", "FOO"}, {"A", "JOIN #c"}, {"B", "INVITE a #c"}, {"A", "MOTD"}, {"B", "QUIT :bye"}}},
 	}
+	// a history long enough for the message ids to cross a multiple of 256 more than once (the output store orders
+	// its keys bytewise; a reader that connects for the first time, or resumes on a position without output, is
+	// located by a range scan over those keys)
+	long := hist{name: "long", lines: [][2]string{{"A", "NICK a"}, {"A", "USER a 0 * :A"}, {"B", "NICK b"}, {"B", "USER b 0 * :B"}, {"A", "JOIN #c"}, {"B", "JOIN #c"}}}
+	for k := 0; k < 560; k++ {
+		who := "A"
+		if k%3 == 0 {
+			who = "B"
+		}
+		long.lines = append(long.lines, [2]string{who, fmt.Sprintf("PRIVMSG #c :line %d", k)})
+	}
+	hists = append(hists, long)
 	type job struct {
 		h       hist
 		restart bool
@@ -233,6 +245,9 @@ func TestVerifC04Api(t *testing.T) {
 				return strings.Join(ids, " ")
 			}
 			for k := 0; k+1 < len(full); k++ {
+				if j.h.name == "long" && k%37 != 0 && k < len(full)-3 {
+					continue // the long history: every 37th position and the last ones
+				}
 				res.Ops++
 				ls := fmt.Sprintf("%d.%d", full[k].Id.Id, full[k].Id.Reply)
 				got, _, err := n.stream(s, s.Auth, ls, until)
